@@ -351,7 +351,7 @@ def gen_box(rng, n, one_sided_p=0.3, offset_p=0.3, scale_p=0.5, place_p=0.6, tig
     return dict(lower=lower, upper=upper, x0=x0.tolist(), rhobeg=float(rhobeg), scaling=scaling)
 
 
-def gen_options(rng, n, npt=None, allow=("restarts", "regression", "growing", "random_init", "noise_exit", "tols", "diag"),
+def gen_options(rng, n, npt=None, allow=("restarts", "regression", "growing", "random_init", "noise_exit", "tols", "diag", "rare"),
                 restarts_p=0.3):
     """user_params sampled strictly inside the documented ranges, avoiding combinations owned by findings
     (growing with more than n directions, boundary values of the parameter table)."""
@@ -429,8 +429,71 @@ def gen_options(rng, n, npt=None, allow=("restarts", "regression", "growing", "r
     if "diag" in allow and r() < 0.1:
         up["logging.save_diagnostic_info"] = True
         up["logging.save_poisedness"] = bool(r() < 0.3)
+    if "rare" in allow:
+        rare_options(up, n)
     out["user_params"] = up
     return out
+
+
+def rare_options(up, n, p_block=0.3, reg=False, proj=False):
+    """Seldom-used keys of the parameter table that no other generator touches (C07 enumerates them, but judges only
+    well-formedness): strictly interior, documented-valid values. Drawn from a child generator seeded by the options chosen so far,
+    so adding this block did not move any other draw of the callers' streams."""
+    import hashlib, json
+    seed = int(hashlib.sha1(json.dumps([sorted((k, repr(v)) for k, v in up.items()), n, reg, proj]).encode()).hexdigest()[:8], 16)
+    g = np.random.default_rng([seed, 23])
+    r = g.random
+    if r() >= p_block:
+        return up
+    q = 0.35
+    if r() < q:
+        up["general.safety_step_thresh"] = float(g.uniform(0.05, 0.95))
+    if r() < 0.15:
+        up["general.check_objfun_for_overflow"] = False
+    if r() < q:
+        up["tr_radius.eta2"] = float(g.uniform(max(up.get("tr_radius.eta1", 0.1), 0.1) + 0.05, 0.95))
+    if r() < q:
+        up["tr_radius.gamma_inc_overline"] = float(g.uniform(max(up.get("tr_radius.gamma_inc", 2.0), 1.1), 8.0))
+    if r() < q:
+        up["slow.history_for_slow"] = int(g.integers(1, 11))
+    if r() < q:
+        up["noise.scale_factor_for_quit"] = float(10.0 ** g.uniform(-1, 1))
+    if up.get("restarts.use_restarts"):
+        if "regression.num_extra_steps" in up and r() < 0.6:
+            up["regression.increase_num_extra_steps_with_restart"] = int(g.integers(1, 3))
+        if up.get("restarts.auto_detect", True) and r() < 0.6:
+            up["restarts.auto_detect.history"] = int(g.integers(2, 41))
+            if r() < 0.5:
+                up["restarts.auto_detect.min_chgJ_slope"] = float(10.0 ** g.uniform(-4, 0))
+            if r() < 0.5:
+                up["restarts.auto_detect.min_correl"] = float(g.uniform(0.01, 0.9))
+    if "growing.ndirs_initial" in up:
+        if r() < q:
+            up["growing.delta_scale_new_dirns"] = float(g.uniform(0.1, 1.0))
+        if r() < 0.25:
+            up["growing.safety.do_safety_step"] = False
+        if r() < q:
+            up["growing.full_rank.scale_factor"] = float(10.0 ** g.uniform(-4, 0))
+        if r() < q:
+            up["growing.full_rank.min_sing_val"] = float(10.0 ** g.uniform(-10, -2))
+        if r() < q:
+            up["growing.full_rank.svd_scale_factor"] = float(g.uniform(0.05, 1.0))
+        if r() < q:
+            up["growing.full_rank.svd_max_jac_cond"] = float(10.0 ** g.uniform(2, 12))
+        if r() < 0.2:
+            up["growing.gamma_dec"] = float(g.uniform(0.2, 0.95))
+    if proj and r() < 0.5:
+        up["matrix_rank.r_tol"] = float(10.0 ** g.uniform(-20, -12))
+    if reg:
+        if r() < 0.5:
+            up["func_tol.criticality_measure"] = float(10.0 ** g.uniform(-5, -1))
+        if r() < 0.5:
+            up["func_tol.tr_step"] = float(g.uniform(0.5, 0.99))
+        if r() < 0.5:
+            up["func_tol.max_iters"] = int(g.integers(50, 1000))
+        if r() < 0.5:
+            up["sfista.max_iters_scaling"] = float(g.uniform(1.0, 4.0))
+    return up
 
 
 def gen_convex_sets(rng, n, nsets=None, margin=None):
